@@ -22,6 +22,11 @@ GOPTS = {'vector': 'xyz', 'cell_numbers': [8, 12, 16], 'max_buffer': 300,
          'lambda_factor': 0.2, 'min_width_limits': 80,
          'stretching': [1, 2.0]}
 
+# per-source domains (translated copies of one grid for different sources)
+GOPTS_D = {'distance': [[150, 150], [150, 150], [120, 120]],
+           'cell_numbers': [8, 12, 16], 'min_width_limits': 60,
+           'stretching': [1, 2.0], 'max_buffer': 300, 'lambda_factor': 0.2}
+
 PROBLEMS = {
     # name: (case, mapping, source kinds, receiver kinds, nfreq)
     'iso': ('isotropic', 'Conductivity', ('dip', 'point'), 'EH', 1),
@@ -31,7 +36,7 @@ PROBLEMS = {
 }
 
 
-def make(pname, gridding, file_dir=None, tol=None, rel=False):
+def make(pname, gridding, file_dir=None, tol=None, rel=False, gopts=None):
     import emg3d
     case_, mapping, skinds, rkinds, nfreq = PROBLEMS[pname]
     h = [np.array([120., 90, 100, 130])*s for s in (1.0, 1.1, 0.9)]
@@ -67,7 +72,7 @@ def make(pname, gridding, file_dir=None, tol=None, rel=False):
     survey.data['observed'] = (survey.data.observed.dims, d)
     kw = {}
     if gridding != 'same':
-        kw['gridding_opts'] = dict(GOPTS)
+        kw['gridding_opts'] = dict(GOPTS_D if gopts == 'distance' else GOPTS)
     so = {} if tol is None else {'tol': tol, 'maxit': 200}
     sim = emg3d.Simulation(survey, model, max_workers=1, gridding=gridding,
                            receiver_interpolation='linear', tqdm_opts=False,
@@ -94,13 +99,14 @@ def case(c):
         with warnings.catch_warnings():
             warnings.simplefilter('ignore')
             sim = make(pname, gridding, tmp, 1e-11 if real else None,
-                       c.get('rel', False))
+                       c.get('rel', False), c.get('gopts'))
             n = tuple(sim.model.grid.shape_cells)
             nb = nblocks(sim.model.case)
             nc = int(np.prod(n))
             shape = sim.survey.shape
             nd = int(np.prod(shape))
-            ctxm = adjoint.exact_mode() if not real else _null()
+            fails = []
+            ctxm = adjoint.exact_mode() if not real else _record_exits(fails)
             with ctxm:
                 g = np.array(sim.gradient)
                 res = np.array(sim.data.residual.data)
@@ -159,8 +165,10 @@ def case(c):
                       f'{np.abs(g - gr).max()/np.abs(gr).max():.2e}')
             inconclusive = False
             if real:
-                inconclusive = any(sim.get_efield_info(s, f)['exit'] != 0
-                                   for s, f in sim._srcfreq)
+                # a solve that reports failure says nothing about J / J^T
+                inconclusive = bool(fails) or any(
+                    sim.get_efield_info(s, f)['exit'] != 0
+                    for s, f in sim._srcfreq)
                 if inconclusive:
                     viol.clear()
     finally:
@@ -168,16 +176,34 @@ def case(c):
             shutil.rmtree(tmp, ignore_errors=True)
     return {'viol': viol, 'compared': compared,
             'transitions': nb*nc + 2*nd + 2, 'nontrivial': sc > 0,
-            'outcome': (pname, gridding, bool(tmp), real, inconclusive),
+            'outcome': (pname, gridding, bool(tmp), real, inconclusive,
+                        c.get('gopts')),
             'count': {'jvec_calls': nb*nc, 'jtvec_calls': 2*nd + 1,
                       'real_inconclusive': int(inconclusive)}}
 
 
-class _null:
+class _record_exits:
+    """Real-solver mode: record every solve that reports failure."""
+
+    def __init__(self, fails):
+        self.fails = fails
+
     def __enter__(self):
+        import emg3d._multiprocessing as mp_
+        self.mp_, self.old = mp_, mp_.solve
+        fails, old = self.fails, self.old
+
+        def solve(inp):
+            out = old(inp)
+            info = out[1]
+            if isinstance(info, dict) and info.get('exit', 0) != 0:
+                fails.append(info.get('exit_message'))
+            return out
+        mp_.solve = solve
         return self
 
     def __exit__(self, *a):
+        self.mp_.solve = self.old
         return False
 
 
@@ -205,6 +231,8 @@ def run(ctx):
            for g in ('same', 'both')]
     cs += [{'problem': 'vti', 'gridding': 'same', 'rel': True},
            {'problem': 'iso', 'gridding': 'source', 'rel': True}]
+    cs += [{'problem': 'iso', 'gridding': g, 'gopts': 'distance'}
+           for g in ('source', 'both')]
     cs += [{'problem': 'iso', 'gridding': 'same', 'real': True},
            {'problem': 'vti', 'gridding': 'both', 'real': True}]
     if not q:
